@@ -32,9 +32,11 @@ class Shadow:
         # targeted scenarios (act_special): probability per act() step and relative weights; a property check raises what it is about
         self.special = 0.08
         self.weights = {'late-unschedule': 1.0, 'orphan': 1.0, 'unschedule-orphan': 2.0, 'late-resources': 1.5, 'jp-cancel-path': 1.0,
-                        'late-schedule': 1.0, 'dead-instance-attempt': 1.0, 'compact-cycle': 1.0, 'cancel-cleanup-cancel': 1.0}
+                        'late-schedule': 1.0, 'dead-instance-attempt': 1.0, 'compact-cycle': 1.0, 'cancel-cleanup-cancel': 1.0,
+                        'jp-timeout': 1.0}
         self.abs_in_update = 0.2       # share of in-update parents a bunch names by ABSOLUTE id (the legacy `parent_ids` form)
         self.legacy_spelling = 0.3     # share of specs with absolute parents that send them under the deprecated key `parent_ids` (L prefix)
+        self.jp_jobs = 0.2             # share of job-private jobs (explicit machine type: the `creating` path)
         self.group_bunches = 0.3       # probability that the job groups of an update are sent in several bunches
         self.ops: List[str] = []
         self.tags: List[str] = []
@@ -141,7 +143,7 @@ class Shadow:
                 gs = f'N;{g - u["start_group"] + 1}'
             else:
                 gs = f'{g};0'
-            ic = rng.choice([0, 0, 0, 1, 2])
+            ic = 2 if rng.random() < self.jp_jobs else rng.choice([0, 0, 0, 1])
             cores = rng.choice(JP_CORES if ic == 2 else POOL_CORES)
             ar = 1 if rng.random() < 0.2 else 0
             parents = absp + [u['start_job'] + p - 1 for p in relp]
@@ -267,9 +269,10 @@ class Shadow:
         if nores:
             cands['late-resources'] = nores
         jp = [(k, J) for k, J in jobs if J['state'] == 'Ready' and J['ic'] == 2 and not J['ar'] and self.scheduler_visible(k[0], J)
-              and not self.batches[k[0]]['cancelled'] and not self.batches[k[0]]['deleted']]
+              and not self.job_cancelled(k[0], J) and not self.batches[k[0]]['deleted']]
         if jp:
             cands['jp-cancel-path'] = jp
+            cands['jp-timeout'] = jp
         late = [(k, J) for k, J in done if self.instances.get(J['last'][1], {}).get('state') == 'active' and not self.job_cancelled(k[0], J)]
         late += [(k, J) for k, J in jobs if J.get('unsched') and J['state'] == 'Ready' and self.job_cancelled(k[0], J)
                  and self.instances.get(J['unsched'][1], {}).get('state') == 'active']
@@ -384,13 +387,35 @@ class Shadow:
                 t2 = self.tick()
                 self.emit(f'heartbeat {t2} {self.date} {b}:{j}:{a}', 'heartbeat', replayable=True)
                 self.emit('compact', 'compact:after-usage')
-        elif name == 'jp-cancel-path':
+        elif name == 'jp-timeout':
+            # job-private instance that never activates: mark_job_creating on the pending instance, then the activation timeout
             inst = self.new_instance(False, activate=False)
             a = self.next_att
             self.next_att += 1
             self.emit(f'creating {b} {j} {a} {inst} {ts} {d}', 'creating')
-            J.update(state='Creating', attempt=a, inst=inst)
+            self.emit(f'deactivate {inst} activation_timeout {self.tick()} {self.date}', 'deactivate:pending-with-creating-job', replayable=True)
+            self.instances[inst]['state'] = 'inactive'
+        elif name == 'jp-cancel-path':
+            inst = self.new_instance(False, activate=False)
+            a = self.next_att
+            self.next_att += 1
             B = self.batches[b]
+            nonroot = [g for g in self.ancestors(b, J['group']) if g != 0]
+            if nonroot and rng.random() < 0.5:
+                # the cancel of a NON-ROOT ancestor lands between the creation of the instance and mark_job_creating
+                g = rng.choice(nonroot)
+                self.emit(f'cancel {b} {g}', 'cancel:before-creating')
+                if B['groups'][g]['update'] is None or B['updates'][B['groups'][g]['update'] - 1]['committed']:
+                    B['cancelled'].add(g)
+                self.emit(f'creating {b} {j} {a} {inst} {ts} {d}', 'creating:after-cancel')
+                if not self.job_cancelled(b, J):
+                    J.update(state='Creating', attempt=a, inst=inst)
+                if rng.random() < 0.5:
+                    self.instances[inst]['state'] = 'active'
+                    self.emit(f'activate {inst}', 'activate')
+                return True
+            self.emit(f'creating {b} {j} {a} {inst} {ts} {d}', 'creating')
+            J.update(state='Creating', attempt=a, inst=inst)
             if rng.random() < 0.8:
                 g = rng.choice(self.ancestors(b, J['group']))
                 self.emit(f'cancel {b} {g}', 'cancel:while-creating')
@@ -719,28 +744,43 @@ def adversarial(rng: random.Random) -> Dict[str, Any]:
     return {'ops': s.ops, 'kind': 'adversarial', 'adv': kind}
 
 
-def submission(rng: random.Random) -> Dict[str, Any]:
-    """C39: a client submits and commits 1-2 updates (pool 'standard' jobs that fit the instances, nested groups, DAG parents, some
-    always_run); then a script for the actors of harness/batchdb/actors.py"""
+def submission(rng: random.Random, flavour: str = 'c39') -> Dict[str, Any]:
+    """a client submits and commits 1-2 updates (small pool 'standard' jobs and some job-private jobs, nested groups, DAG parents,
+    some always_run); then a script for the actors of harness/batchdb/actors.py.  flavour: 'c39' (everything), 'c05' (parents fail,
+    the canceller's ready loop runs before the scheduler, more always_run children), 'c10' (placement events: in-flight preemption /
+    started-first, orphans, late unschedules, job-private path)"""
     s = Shadow(rng)
     s.deep_groups = 0.0          # a well-behaved client: every request of the submission is accepted
     b = s.create_batch(user=1)
     for _ in range(rng.choice([1, 2])):
         s.new_instance(True)
+    jp_share = {'c39': 0.2, 'c05': 0.0, 'c10': 0.25}[flavour]
     for k in range(rng.choice([1, 1, 2])):
-        n_jobs = rng.randint(1, 5)
+        n_jobs = rng.randint(2 if flavour == 'c05' else 1, 5)
         n_groups = rng.choice([0, 1, 2, 3])
         u = s.open_update(b, n_jobs, n_groups)
         s.insert_groups(b, u)
         s.insert_jobs(b, u)
-        # pool 'standard' only, small jobs
+        # pool 'standard' (small jobs) or job-private
         fixed = []
         for part in u['bunches']:
             np_ = []
             for t in part:
                 f = t.split(';')
-                f[6] = str(rng.choice([250, 500, 1000, 2000]))
-                f[7] = '0'
+                jid = u['start_job'] + int(f[0]) - 1
+                if rng.random() < jp_share:
+                    f[6], f[7] = str(rng.choice([1000, 2000])), '2'
+                else:
+                    f[6], f[7] = str(rng.choice([250, 500, 1000, 2000])), '0'
+                if flavour == 'c05':
+                    rel = int(f[0])
+                    if rel > 1 and not f[1] and not f[2] and rng.random() < 0.7:
+                        f[2] = str(rng.randint(1, rel - 1))          # most jobs have a parent ...
+                        s.jobs[(b, jid)]['parents'] = [u['start_job'] + int(f[2]) - 1]
+                    if (f[1] or f[2]) and rng.random() < 0.45:
+                        f[5] = '1'                                   # ... and many children are always_run
+                        s.jobs[(b, jid)]['ar'] = 1
+                s.jobs[(b, jid)]['ic'] = int(f[7])
                 np_.append(';'.join(f))
             fixed.append(np_)
         u['bunches'] = fixed
@@ -749,25 +789,45 @@ def submission(rng: random.Random) -> Dict[str, Any]:
         s.commit(b, u)
     groups = list(s.batches[b]['groups'])
     script: List[str] = []
+    if flavour == 'c05':
+        for _ in range(rng.randint(5, 14)):
+            r = rng.random()
+            if r < 0.3:
+                script.append('S')
+            elif r < 0.65:
+                script.append('W' + rng.choice(['Failed', 'Error', 'Failed', 'Success']))
+                if rng.random() < 0.6:
+                    script.append('R')          # the canceller's ready loop gets there before the scheduler
+            elif r < 0.85:
+                script.append('R')
+            elif r < 0.92:
+                script.append(rng.choice(['U', 'O', 'D']))
+            else:
+                script.append(f'C{b} {rng.choice(groups)}')
+        return {'ops': s.ops, 'kind': 'actors', 'actors': script, 'aseed': rng.randint(0, 10 ** 6)}
     for _ in range(rng.randint(4, 16)):
         r = rng.random()
-        if r < 0.30:
+        if r < 0.26:
             script.append('S')
-        elif r < 0.36:
+        elif r < 0.32:
             script.append('P')
-        elif r < 0.6:
+        elif r < (0.42 if flavour == 'c10' else 0.34):
+            script.append('Q')
+        elif r < 0.46:
+            script.append('J' if rng.random() < 0.6 else 'Jtimeout')
+        elif r < 0.64:
             script.append('W' + rng.choice(['Success', 'Success', 'Failed', 'Error']))
-        elif r < 0.68:
+        elif r < 0.71:
             script.append(rng.choice(['R', 'U', 'O']))
-        elif r < 0.74:
+        elif r < 0.76:
             script.append('D')
-        elif r < 0.80:
+        elif r < 0.81:
             script.append('X')              # orphan attempt; the orphan loop usually runs soon after
             if rng.random() < 0.7:
                 script.append('O')
-        elif r < 0.84:
+        elif r < 0.85:
             script.append('L')
-        elif r < 0.90:
+        elif r < 0.91:
             script.append('F')
         else:
             g = rng.choice(groups)
